@@ -20,7 +20,19 @@ type Op struct {
 	Return int64
 }
 
+func clip(d string) string {
+	if len(d) <= 64 {
+		return d
+	}
+	k := 0
+	for k < len(d) && d[k] == d[0] {
+		k++
+	}
+	return fmt.Sprintf("%c..%c (len %d, first change at %d)", d[0], d[len(d)-1], len(d), k)
+}
+
 func (o Op) String() string {
+	o.Data = clip(o.Data)
 	switch o.Kind {
 	case "read":
 		return fmt.Sprintf("c%d read(%d,%d)=%q [%d,%d]", o.Client, o.Off, o.N, o.Data, o.Call, o.Return)
